@@ -465,8 +465,12 @@ theorem stepIbc_back (s s' : State) (op : IbcOp) (h : stepIbc cfg s op = .ok s')
         · cases hf
   | toIbc g u n =>
     simp only [ibcFlow] at hf; split at hf
-    · cases hf
-    · cases hf; simp only [baseCoinToIBCCoin]; back_done
+    · split at hf
+      · cases hf; rfl
+      · cases hf
+    · split at hf
+      · cases hf
+      · cases hf; simp only [baseCoinToIBCCoin]; back_done
   | xfer g u n =>
     simp only [ibcFlow] at hf; split at hf
     · cases hf
